@@ -32,6 +32,8 @@ def name_code(s):
     """Python name -> (tag, k) of the Coq `name` type; None stays None."""
     if s is None:
         return None
+    if not isinstance(s, str):
+        return (9, sum(map(ord, repr(s))) % 100000)   # a non-string name can only stick when the code is wrong
     if s == "":
         return (1, 0)
     m = re.fullmatch(r"u(\d+)", s)
@@ -43,7 +45,7 @@ def name_code(s):
     m = re.fullmatch(r"node_Op_(\d+)", s)
     if m:
         return (4, int(m.group(1)))
-    raise ValueError(f"name outside the modelled alphabet: {s!r}")
+    return (9, sum(map(ord, repr(s))) % 100000)       # outside the modelled alphabet (only sticks when the code is wrong)
 
 
 def cname(s) -> str:
@@ -120,7 +122,13 @@ class Impl:
             v, nm = op[1], op[2]
             extra = op[3] if len(op) > 3 else {}
             assert v == len(V)
-            if extra.get("tensor"):
+            if extra.get("tensor") == "proto":
+                import numpy as np
+                import onnx
+                from onnx_ir import serde
+                tp = onnx.numpy_helper.from_array(np.array([float(v)], dtype=np.float32), nm or "")
+                self._reg("v", ir.Value(name=nm, const_value=serde.deserialize_tensor(tp)))
+            elif extra.get("tensor"):
                 import numpy as np
                 t = ir.Tensor(np.array([float(v)], dtype=np.float32), name=nm, doc_string=f"doc{v}",
                               metadata_props={"k": f"m{v}"})
@@ -232,6 +240,12 @@ class Impl:
         elif k == "IODelItem":
             _, kind, g, i = op
             del self._io(kind, g)[i]
+        elif k == "IOSetSlice":
+            _, kind, g, a, b, vs = op
+            self._io(kind, g)[a:b] = [V[x] for x in vs]
+        elif k == "IODelSlice":
+            _, kind, g, a, b = op
+            del self._io(kind, g)[a:b]
         elif k == "IOIMul":
             _, kind, g, m = op
             lst = self._io(kind, g)
@@ -256,11 +270,15 @@ class Impl:
             G[g].initializers.clear()
         # ---- ops outside the Coq model (oracle-only stream)
         elif k == "X_IOSetSlice":
-            _, kind, g, a, b, vs = op
-            self._io(kind, g)[a:b] = [V[x] for x in vs]
+            kind, g, a, b, vs = op[1:6]
+            step = op[6] if len(op) > 6 else None
+            self._io(kind, g)[a:b:step] = [V[x] for x in vs]
         elif k == "X_IODelSlice":
-            _, kind, g, a, b = op
-            del self._io(kind, g)[a:b]
+            kind, g, a, b = op[1:5]
+            step = op[5] if len(op) > 5 else None
+            del self._io(kind, g)[a:b:step]
+        elif k == "X_VSetNameRaw":
+            V[op[1]].name = op[2]                  # any object, also names the backing tensor refuses
         elif k == "X_IOSort":
             _, kind, g = op
             self._io(kind, g).sort(key=id)
@@ -513,6 +531,10 @@ def site_of(op: list, outcome: str) -> str | None:
         return "io-extend-partial"
     if k == "IOInsert" and outcome == "ValueError":
         return "io-insert-rejected-kept"
+    if k == "IOSetSlice" and outcome == "ValueError":
+        return "io-setitem-rejected-disowns"
+    if k == "IODelSlice" and not raised:
+        return "io-delitem-untracked"
     if k == "IOSetItem" and outcome == "ValueError":
         return "io-setitem-rejected-disowns"
     if k == "VReplaceAllUses" and outcome == "ValueError" and op[3]:
@@ -533,6 +555,8 @@ def site_of(op: list, outcome: str) -> str | None:
     if k == "X_IODelSlice" and not raised:
         return "io-delitem-untracked"
     if k == "X_IOSetSlice" and outcome == "ValueError":
+        if len(op) > 6 and op[6] not in (None, 1):
+            return "io-setslice-extended-size-mismatch"
         return "io-setitem-rejected-disowns"
     if k == "X_InitIOr" and not raised:
         return "init-ior-untracked"
@@ -701,7 +725,7 @@ class Gen:
                 ["GInsertAfter"] * 2 + ["GInsertBefore"] * 2 + ["NAppend", "NPrepend"] + ["GRemove"] * 4 + \
                 ["NReplaceInput"] * 6 + ["NResizeInputs"] * 2 + ["NResizeOutputs"] * 3 + ["VReplaceAllUses"] * 4 + \
                 ["VSetName"] * 4 + ["IOAppend"] * 5 + ["IOExtend"] * 3 + ["IOInsert"] * 3 + ["IOPop"] * 3 + \
-                ["IORemove"] * 2 + ["IOClear"] + ["IOSetItem"] * 3 + ["IODelItem"] + ["IOIMul"] + ["IOReverse"] + \
+                ["IORemove"] * 2 + ["IOClear"] + ["IOSetItem"] * 3 + ["IODelItem"] + ["IOIMul"] + ["IOReverse"] + ["IOSetSlice"] * 3 + ["IODelSlice"] * 2 + \
                 ["InitSetItem"] * 4 + ["InitDelItem"] + ["InitPop"] * 2 + ["InitAdd"] * 3 + ["InitClear"]
         k = rng.choice(kinds)
         kind = rng.choice(["KIn", "KOut"])
@@ -918,6 +942,22 @@ class Gen:
                 if site and ln:
                     return ["IODelItem", kind, g, rng.choice([0, -1, ln - 1])]
                 return ["IODelItem", kind, g, rng.choice([ln, -ln - 1, ln + 3])]     # IndexError only
+            if k == "IOSetSlice":
+                a = rng.randrange(0, ln + 2)
+                e = rng.choice([a, rng.randrange(0, ln + 3), ln])
+                cur = [im.h(x, "v") for x in lst]
+                pick = (ok + cur[a:e] * 2) or ok
+                if not pick:
+                    return None
+                vs = [rng.choice(pick) for _ in range(rng.choice([0, 1, 2, 2, 3]))]
+                if rng.random() < 0.3 and vs:
+                    vs.append(vs[0])                        # multiplicity change
+                if malformed and bad:
+                    vs.insert(rng.randrange(len(vs) + 1), rng.choice(bad))
+                return ["IOSetSlice", kind, g, a, e, vs]
+            if k == "IODelSlice":
+                a = rng.randrange(0, ln + 2)
+                return ["IODelSlice", kind, g, a, rng.choice([a, rng.randrange(0, ln + 3), ln])]
             if k == "IOIMul":
                 if site:
                     return ["IOIMul", kind, g, rng.choice([0, 2, 2, 3, -1, 1])]
@@ -1025,6 +1065,10 @@ def op_term(op: list) -> str:  # noqa: C901, PLR0911, PLR0912
         return f"{k} {op[1]} {cnat(op[2])} {cZ(op[3])} {cnat(op[4])}"
     if k in ("IOPop", "IODelItem", "IOIMul"):
         return f"{k} {op[1]} {cnat(op[2])} {cZ(op[3])}"
+    if k == "IOSetSlice":
+        return f"IOSetSlice {op[1]} {cnat(op[2])} {cnat(op[3])} {cnat(op[4])} {_vl(op[5])}"
+    if k == "IODelSlice":
+        return f"IODelSlice {op[1]} {cnat(op[2])} {cnat(op[3])} {cnat(op[4])}"
     if k in ("IOClear", "IOReverse"):
         return f"{k} {op[1]} {cnat(op[2])}"
     if k == "InitSetItem":
@@ -1102,7 +1146,8 @@ def all_container_histories(max_len: int):
                   ["IOSetItem", kind, 0, 1, 3],
                   ["IODelItem", kind, 0, 0], ["IOIMul", kind, 0, 2], ["IOIMul", kind, 0, 0],
                   ["IOExtend", kind, 0, [1, 1], {}], ["IOExtend", kind, 0, [1, 2], {}], ["IOExtend", kind, 0, [2, 1], {}],
-                  ["IOReverse", kind, 0]]
+                  ["IOReverse", kind, 0], ["IOSetSlice", kind, 0, 0, 1, [0, 0]], ["IOSetSlice", kind, 0, 0, 2, [0]],
+                  ["IOSetSlice", kind, 0, 1, 1, [1, 2]], ["IODelSlice", kind, 0, 0, 1], ["IODelSlice", kind, 0, 0, 5]]
     alpha += [["InitSetItem", 0, "u3", 1], ["InitSetItem", 0, "u0", 0], ["InitSetItem", 0, "u1", 4],
               ["InitSetItem", 0, "u9", 3], ["InitAdd", 0, 0], ["InitAdd", 0, 1], ["InitPop", 0, "u0"],
               ["InitDelItem", 0, "u3"], ["InitClear", 0], ["VSetName", 0, "u3"], ["VSetName", 0, ""],
@@ -1256,12 +1301,12 @@ def run_check(ck, which: str) -> None:  # noqa: C901, PLR0912, PLR0915
     ck.coverage["ops_in_model"] = sorted({"NewValue", "NewNode", "GraphNew", "GAppend", "GExtend", "GInsertAfter", "GInsertBefore",
                                           "NAppend", "NPrepend", "GRemove", "NReplaceInput", "NResizeInputs", "NResizeOutputs",
                                           "VReplaceAllUses", "VSetName", "IOAppend", "IOExtend", "IOInsert", "IOPop", "IORemove",
-                                          "IOClear", "IOSetItem", "IODelItem", "IOIMul", "IOReverse", "InitSetItem", "InitDelItem",
+                                          "IOClear", "IOSetItem", "IODelItem", "IOSetSlice (plain)", "IODelSlice (plain)", "IOIMul", "IOReverse", "InitSetItem", "InitDelItem",
                                           "InitPop", "InitAdd", "InitClear", "Function forwards (routed through Function objects)"})
     ck.coverage["multi_graph_stream"] = ("nested graphs (2-8 permuted If-like bodies, one cyclic scope) + Graph.sort on top/nested "
                                          "graphs; rename_values / replace_all_uses_with spanning >= 2 graphs with the invalid "
                                          "element in a later graph")
-    ck.coverage["ops_oracle_only"] = ["IOSetSlice", "IODelSlice", "IOSort", "InitPopItem", "InitUpdate", "InitSetDefault", "InitIOr",
+    ck.coverage["ops_oracle_only"] = ["IOSetSlice/IODelSlice with step or negative bounds", "IOSort", "VSetName to a non-str / unencodable name", "InitPopItem", "InitUpdate", "InitSetDefault", "InitIOr",
                                       "GSort", "GRegisterInitializer", "ConvReplaceAllUses", "ConvRenameValues",
                                       "ConvReplaceNodesAndValues"]
     ck.prove()
@@ -1378,9 +1423,10 @@ def run_check(ck, which: str) -> None:  # noqa: C901, PLR0912, PLR0915
         if st and st[-1][which]:
             report([s["op"] for s in st], len(st) - 1, st[-1], st[-1])
     # ---- 4b. rejected edits spanning several graphs: nested sort with one cyclic scope, multi-graph convenience calls
-    n_mg = 120 if not ck.thorough else 1500
+    n_mg = 300 if not ck.thorough else 3000
     for i in range(n_mg):
-        gen = (gen_nested_sort, gen_nested_sort, gen_multi_rename, gen_multi_rename, gen_multi_rau)[i % 5]
+        gen = (gen_nested_sort, gen_slices, gen_multi_rename, gen_refused_names, gen_multi_rau, gen_slices,
+               gen_nested_sort, gen_slices, gen_multi_rename, gen_refused_names)[i % 10]
         ops = gen(rng)
         st = run_history(ops)["steps"]
         ck.count(len(st))
@@ -1393,6 +1439,8 @@ def run_check(ck, which: str) -> None:  # noqa: C901, PLR0912, PLR0915
             if s[which]:
                 report(ops, j, s, s)
                 break
+            if any(c in sibling for c in site_candidates(s["op"], s["outcome"])):
+                break          # a recorded defect site was (possibly latently) hit: later state is not trusted
     # ---- 5. known findings are replayed on every run
     for kf in ck._known:  # noqa: SLF001
         if kf.get("status") != "known":
@@ -1611,7 +1659,7 @@ def gen_rejections(rng) -> list[list]:
     g1 = b.graph([f], [p0], [], [m0])
     free = [b.node([o1])[0] for _ in range(3)]                   # graph-less, unnamed, outputs unnamed
     lone = b.node([])[0]
-    shape = rng.choice(["insert-ref", "insert-ref", "insert-foreign", "extend-foreign", "io-extend", "io-insert", "io-setitem",
+    shape = rng.choice(["insert-ref", "insert-ref", "insert-foreign", "extend-foreign", "io-extend", "io-insert", "io-setitem", "io-setslice",
                         "rau", "rau", "rename", "rename", "init-set", "remove-safe", "resize-outputs"])
     k = rng.randrange(1, 4)
     if shape == "insert-ref":
@@ -1624,7 +1672,7 @@ def gen_rejections(rng) -> list[list]:
         ns = free[:k]
         ns.insert(rng.randrange(len(ns) + 1), m0)
         op = ["GExtend", g0, ns, {}]
-    elif shape in ("io-extend", "io-insert", "io-setitem"):
+    elif shape in ("io-extend", "io-insert", "io-setitem", "io-setslice"):
         kind = rng.choice(["KIn", "KOut"])
         okv = [val(None) for _ in range(k)]
         bad = f if kind == "KOut" or rng.random() < 0.5 else o2      # foreign, or (inputs only) produced
@@ -1632,6 +1680,10 @@ def gen_rejections(rng) -> list[list]:
             vs = list(okv)
             vs.insert(rng.randrange(len(vs) + 1), bad)
             op = ["IOExtend", kind, g0, vs, {}]
+        elif shape == "io-setslice":
+            vs = list(okv)
+            vs.insert(rng.randrange(len(vs) + 1), bad)
+            op = ["IOSetSlice", kind, g0, rng.choice([0, 1]), rng.choice([1, 2, 5]), vs]
         elif shape == "io-insert":
             op = ["IOInsert", kind, g0, rng.choice([0, 1, -1, 5]), bad]
         else:
@@ -1650,4 +1702,106 @@ def gen_rejections(rng) -> list[list]:
     else:
         op = ["NResizeOutputs", n0, 0, []]
     b.ops.append(op)
+    return b.ops
+
+
+# --------------------------------------------------------------------------- slices with multiplicity changes, refused names (oracle-only)
+
+def gen_slices(rng) -> list[list]:
+    """Slice assignment / deletion on the tracked lists (plain, empty and extended slices; repeated values on either
+    side so that multiplicities change: [a] -> [a, a], [a, a] -> [a]) followed by removals (pop/remove/del/clear)."""
+    b = _B()
+    pool = []
+    for nm in ("u0", "u1", "u2", None):
+        b.ops.append(["NewValue", b.nv, nm])
+        pool.append(b.nv)
+        b.nv += 1
+    kind = rng.choice(["KIn", "KOut"])
+    init = [rng.choice(pool) for _ in range(rng.randrange(0, 5))]
+    if rng.random() < 0.6 and init:
+        init.append(init[0])                                   # a repeated value from the start
+    g = b.graph(init if kind == "KIn" else [], init if kind == "KOut" else [], [], [])
+    cur = list(init)
+    for _ in range(rng.randrange(2, 7)):
+        n = len(cur)
+        r = rng.random()
+        if r < 0.45:
+            a = rng.randrange(0, n + 1)
+            e = rng.randrange(a, n + 1) if rng.random() < 0.8 else a       # empty slice = pure insertion
+            old = cur[a:e]
+            mode = rng.choice(["dup", "dedup", "fresh", "same"])
+            if mode == "dup" and (old or cur):
+                x = rng.choice(old or cur)
+                vs = old + [x] * rng.choice([1, 2])
+            elif mode == "dedup" and old:
+                vs = list(dict.fromkeys(old))[: rng.choice([1, len(old)])]
+            elif mode == "same":
+                vs = list(old)
+            else:
+                vs = [rng.choice(pool) for _ in range(rng.randrange(0, 4))]
+            if rng.random() < 0.2 and n >= 2:                              # extended slice, matching size
+                a, e, step = rng.randrange(0, 2), n, 2
+                vs = [rng.choice(pool) for _ in cur[a:e:step]]
+                if rng.random() < 0.25:
+                    vs = vs + [rng.choice(pool)]                           # wrong size: list refuses the assignment
+                op = ["X_IOSetSlice", kind, g, a, e, vs, step]
+                if len(vs) == len(cur[a:e:step]):
+                    cur[a:e:step] = vs
+            else:
+                op = ["IOSetSlice", kind, g, a, e, vs]
+                cur[a:e] = vs
+        elif r < 0.6:
+            a = rng.randrange(0, n + 1)
+            e = rng.randrange(a, n + 1)
+            if rng.random() < 0.25 and n >= 2:
+                op = ["X_IODelSlice", kind, g, 0, n, 2]
+                del cur[0:n:2]
+            else:
+                op = ["IODelSlice", kind, g, a, e]
+                del cur[a:e]
+        elif r < 0.7 and n:
+            op = ["IOPop", kind, g, rng.choice([-1, 0])]
+            cur.pop(op[3])
+        elif r < 0.8 and n:
+            op = ["IORemove", kind, g, rng.choice(cur)]
+            cur.remove(op[3])
+        elif r < 0.88 and n:
+            i = rng.randrange(n)
+            op = ["IODelItem", kind, g, i]
+            del cur[i]
+        elif r < 0.94:
+            op = ["IOClear", kind, g]
+            cur = []
+        else:
+            op = ["IOAppend", kind, g, rng.choice(pool), {}]
+            cur.append(op[3])
+        b.ops.append(op)
+    return b.ops
+
+
+REFUSED_NAMES = ["\ud800", "w\udfff", 5, 2.5]
+
+
+def gen_refused_names(rng) -> list[list]:
+    """Initializers (and plain values) whose const_value is a proto-backed TensorProtoTensor (serde.deserialize_tensor),
+    renamed to something the tensor's own name setter refuses (lone surrogate -> UnicodeEncodeError, non-string ->
+    TypeError); ordinary renames in between."""
+    b = _B()
+    P = {"tensor": "proto"}
+    vals = []
+    for nm in ("u0", "u1", "u2"):
+        b.ops.append(["NewValue", b.nv, nm, P])
+        vals.append(b.nv)
+        b.nv += 1
+    b.ops.append(["NewValue", b.nv, "u3", {"tensor": True}])
+    plain = b.nv
+    b.nv += 1
+    g = b.graph([], [vals[2]], vals[:2] + ([plain] if rng.random() < 0.5 else []), [])
+    for _ in range(rng.randrange(1, 4)):
+        v = rng.choice(vals)
+        if rng.random() < 0.7:
+            b.ops.append(["X_VSetNameRaw", v, rng.choice(REFUSED_NAMES)])
+        else:
+            b.ops.append(["VSetName", v, rng.choice(["u5", "u6", "u1", None])])
+    b.ops.append(["InitPop", g, "u0"] if rng.random() < 0.3 else ["X_VSetNameRaw", rng.choice(vals[:2]), rng.choice(REFUSED_NAMES)])
     return b.ops
